@@ -683,6 +683,7 @@ Definition exec_stmt_body (st : stmt) : SM (list top) :=
       s <~ sget_st;;
       bits <~ (match value with
                | EId x => resolve_bits true (QId x)
+               | EIndexE (EId x) (IdxList (_ :: _ :: _)) => schecked      (* q[0, 1]: one index, set or range only *)
                | EIndexE (EId x) idx => resolve_bits true (QIdx x [idx])
                | _ => schecked
                end);;
